@@ -168,7 +168,7 @@ func runC36(c *Ctx) {
 	}
 
 	// ---- R3
-	c.Rule("C36-R3", "W+G", "validate{Memory,CPU,Thread}ResourceFit: room = limit - (reservedByChildren - held); held = own | max(own, children)", 12)
+	c.Rule("C36-R3", "W+G", "validate{Memory,CPU,Thread}ResourceFit: room = limit - (reservedByChildren - held); held = own | max(own, children)", 15)
 	type fit struct {
 		fn       string
 		lim, rsv *types.Var
@@ -317,6 +317,32 @@ func runC36(c *Ctx) {
 				return false
 			})
 			c.Check(foreign == "" && fromParam, key+"#request-from-requested-limits", refuse[0].Pos(), "the amount checked is computed from the requested limits", "the amount checked against the ancestor's room is not computed from the requested limits alone ("+foreign+"): what is validated differs from what is stored")
+		}
+		// the walk up the ancestors ends early (break) only once an ancestor with a limit of this very
+		// resource has been checked; an ancestor that merely carries another limit must not end it
+		if lp := LoopContaining(fn, room); lp != nil {
+			limited := Atom{Name: "ancestor has a " + ft.lim.Name(), Match: func(cd Cond) Pol {
+				return cd.CmpIs(token.NEQ, VField(ft.lim), VConstInt(0))
+			}}
+			inLoop := func(b *ssa.BasicBlock) bool {
+				return b == lp.Header || (lp.Body != nil && lp.Body.Dominates(b) && blockReaches(b, lp.Header, nil))
+			}
+			r := ReachQ{Fn: fn, From: &Loc{lp.Header, -1}, CutEdge: func(b *ssa.BasicBlock, s int) bool {
+				if AtomEdges(limited)(b, s) {
+					return true
+				}
+				// stay inside one walk: do not follow the back edge, nor paths that have left the loop
+				return b.Succs[s] == lp.Header || !inLoop(b)
+			}, SinkEdge: func(b *ssa.BasicBlock, s int) bool {
+				if b == lp.Header || !inLoop(b) || inLoop(b.Succs[s]) {
+					return false
+				}
+				// leaving the loop from its body towards a success return
+				return (ReachQ{Fn: fn, From: &Loc{b.Succs[s], -1}, Sink: IsSuccessReturn}).Run().Found
+			}}.Run()
+			c.Check(!r.Found, key+"#walk-ends-only-at-limited-ancestor", room.Pos(), "break only after an ancestor with this limit was checked", "the walk up the ancestors can end with success at an ancestor that has no "+ft.lim.Name()+" (e.g. one that only has a cpu-set): a limit set further up is never checked: "+P.PathString(r.Path))
+		} else {
+			c.Undecided(key+"#walk-ends-only-at-limited-ancestor", room.Pos(), "the loop over the ancestors was not found")
 		}
 		// children's reservation > request refuses
 		okC := false
